@@ -20,7 +20,7 @@ import (
 )
 
 func TestMain(m *testing.M) {
-	vstat.Rule("TokenBucketSet (sub-second periods allowed) and the HTTP TokenLimiter (periods >= 1s), 1-3 rates, frozen clock. Operation programs: advance(d), consume(n) with n around the bursts, flood(k,n) at one instant, retry-after-advertised-delay (advance exactly the returned delay / X-Retry-In, repeat the request), idle(burst*tau) then consume(min burst), consume(n > burst). Oracles: (i) metamorphic: deleting every rejected request that is not the first request at its instant leaves every remaining decision and delay identical (second instance replays the reduced time-line); (ii) a rejected n <= burst retried after the advertised delay is admitted; (iii) after idling max(burst*tau) a request of the smallest burst is admitted; (iv) n > burst is refused with an error (HTTP: error status, no X-Retry-In), never admitted; (v) a trickle of rejected requests at instants unrelated to tau cannot starve the source: n <= burst is admitted at the latest (2n+1)*tau after the last admission (the bound that holds even when every refill drops its remainder). Non-trivial: multi-rate set in which the refusing rate is not the longest-period one and >= 5 rejected requests between two admitted ones. TestC13_Quota: volume quotas (periods 1 h-30 d, averages and bursts up to 4e9, requests of up to millions of units, optional second short-period rate, bucket-set and HTTP level): a rejection has a positive delay, the retry after exactly that delay is admitted, nothing beyond burst + average x elapsed/period.")
+	vstat.Rule("TokenBucketSet (sub-second periods allowed) and the HTTP TokenLimiter (periods >= 1s), 1-3 rates, frozen clock. Operation programs: advance(d), consume(n) with n around the bursts, flood(k,n) at one instant, retry-after-advertised-delay (advance exactly the returned delay / X-Retry-In, repeat the request), idle(burst*tau) then consume(min burst), consume(n > burst). Oracles: (i) metamorphic: deleting every rejected request that is not the first request at its instant leaves every remaining decision and delay identical (second instance replays the reduced time-line); (ii) a rejected n <= burst retried after the advertised delay is admitted; (iii) after idling max(burst*tau) a request of the smallest burst is admitted; (iv) n > burst is refused with an error (HTTP: error status, no X-Retry-In), never admitted; (v) a trickle of rejected requests at instants unrelated to tau cannot starve the source: n <= burst is admitted at the latest (2n+1)*tau after the last admission (the bound that holds even when every refill drops its remainder). Non-trivial: multi-rate set in which the refusing rate is not the longest-period one and >= 5 rejected requests between two admitted ones. TestC13_Quota: volume quotas (periods 1 h-30 d, averages and bursts up to 4e9, requests of up to millions of units, optional second short-period rate, bucket-set and HTTP level): a rejection has a positive delay, the retry after exactly that delay is admitted, nothing beyond burst + average x elapsed/period. TestC13_TwoClients: stock request.header extractor (five spellings), names with shared prefixes of 0-200 bytes, client A spends its burst, is refused, waits exactly the advertised delay while client B is busy, is admitted; then idles burst x period/average while B keeps going and regains its whole burst.")
 	vstat.Main(m.Run)
 }
 
